@@ -5,6 +5,18 @@ HERE = os.path.dirname(os.path.dirname(os.path.abspath(__file__)))
 ids = [json.loads(l)["id"] for l in open(os.path.join(HERE, "properties.jsonl"))]
 
 CLAIMS = {
+ "C04": dict(
+   text="Per-operation contracts = specification step: entry timeouts (no earlier than idle/hard timeout, traffic refreshes only "
+        "the idle clock), flow-removed contents, and - for tables of 0..3 entries with every field/flag/clock symbolic and an "
+        "arbitrary selection relation - DELETE(_STRICT) with out-port filter, MODIFY(_STRICT), ADD (emergency / overlap / full "
+        "table errors, replace identical, priority-ordered insert) and the expiry sweep, each with exactly the specified "
+        "flow-removed notifications (one per removed entry that asked, right reason and counters, none otherwise). The "
+        "selection relation of non-strict commands is proved equal to OpenFlow subsumption for all wildcard words and prefix "
+        "lengths.",
+   note="bounded in table size (0..3) for the table operations (reported as bounded_symbolic_units); unbounded pieces: "
+        "timeouts, notifications' contents, subsumption, and C03's insert/lookup. History = induction over per-operation "
+        "contracts (DESIGN.md).",
+   ref="7/C04"),
  "C18": dict(
    text="The switch's buffer pool is proved for pools of ANY length (symbolic list, loop invariant for the free-slot search): "
         "_buffer_packet returns None iff the pool is full (and then changes nothing), otherwise an id whose slot was free and "
